@@ -85,7 +85,7 @@ def run_case(case: dict[str, Any], col: Collector | None = None) -> list[tuple[s
                 d.idle(o[1])
                 continue
             session = d.server.state.session
-            b = o[1] if o[0] == "bytes" else vecu.resolve(tuple(o), d.model, session, d.prev, d.last_seed)
+            b = o[1] if o[0] == "bytes" else vecu.resolve(tuple(o), d.model, session, d.prev, d.last_seed, d.seen_seed)
             if not b:
                 continue
             ctx = f"seed={case['seed']} step={step} session={session:#x} request={b.hex()[:60]}"
